@@ -7,7 +7,7 @@ use rayon::prelude::*;
 use serde_json::{json, Value};
 use starknet_crypto::Felt;
 use std::collections::HashMap;
-use swiftness_air::{dynamic::DynamicParams, public_memory::PublicInput, types::{AddrValue, ContinuousPageHeader, Page, SegmentInfo}};
+use swiftness_air::{dynamic::DynamicParams, public_memory::PublicInput, types::{AddrValue, ContinuousPageHeader}};
 
 pub struct Base {
     pub name: String,
@@ -29,18 +29,12 @@ fn synthetic(ctx: &Ctx) -> Vec<Base> {
                     continue;
                 }
                 let dp = if dynp { Some(DynamicParams::from((0..340usize).map(|i| i % 7).collect::<Vec<_>>())) } else { None };
-                let p = PublicInput {
-                    log_n_steps: fu(10),
-                    range_check_min: fu(3),
-                    range_check_max: fu(900),
-                    layout: fu(0x726563),
-                    dynamic_params: dp,
-                    segments: vec![SegmentInfo { begin_addr: fu(1), stop_ptr: fu(5) }, SegmentInfo { begin_addr: fu(20), stop_ptr: fu(30) }],
-                    padding_addr: fu(1),
-                    padding_value: r.felt(),
-                    main_page: Page(pg.iter().map(|c| AddrValue { address: c.address, value: c.value }).collect()),
-                    continuous_page_headers: hs.iter().map(|h| ContinuousPageHeader { start_address: h.start_address, size: h.size, hash: h.hash, prod: h.prod }).collect(),
-                };
+                let p = crate::refm::pubin::make_public_input(
+                    fu(10), fu(3), fu(900), fu(0x726563), dp.as_ref().map(|d| serde_json::to_value(d).unwrap()),
+                    &[(fu(1), fu(5)), (fu(20), fu(30))], (fu(1), r.felt()),
+                    &pg.iter().map(|c| (c.address, c.value)).collect::<Vec<_>>(),
+                    &hs.iter().map(|h| (h.start_address, h.size, h.hash, h.prod)).collect::<Vec<_>>(),
+                );
                 out.push(Base { name: format!("synthetic/page{}-hdr{}-dyn{}", pi, hi, dynp), value: serde_json::to_value(&p).unwrap(), n_friendly: fu(7) });
             }
         }
